@@ -76,6 +76,15 @@ func (m *Model) judgePublish(w *Window, oi int) *PubJ {
 	if ps != nil && ps.Uncertain {
 		pubTouched = true
 	}
+	if pc != nil && ps == nil {
+		// the publisher's connection is being established in this very window (or its session is unknown
+		// to the model): whether the publish is accepted is not determined
+		for _, o2 := range w.Ops {
+			if o2 == pc.ConnectOp {
+				pubTouched = true
+			}
+		}
+	}
 	topic := op.Pkt.Topic
 	for _, c := range m.SortedSessions() {
 		match := c.MatchingSubs(topic)
@@ -303,7 +312,7 @@ func checkDelivery(r *Result, prop string) []Violation {
 					}
 					if n > 0 && !j.May[id] {
 						out = append(out, viol("C03", "unexpected-delivery", fmt.Sprintf("publish op %d %s delivered to session %q which holds no entitled matching subscription (filters %s, accepted=%v)", oi, op.Pkt, id, fshape, j.Accepted), live[0].Seq,
-							"filters", fshape, "topic", shape(op.Pkt.Topic), "accepted", fmt.Sprint(j.Accepted), "selfpub", fmt.Sprint(j.PubID == id), "session", originOf(c)))
+							"cause", unexpectedCause(c, op.Pkt.Topic, j.Accepted), "accepted", fmt.Sprint(j.Accepted), "session", originOf(c)))
 					}
 					if n == 0 && j.Must[id] && c != nil && !stallActive(r, w.StartSeq, w.EndSeq) {
 						pidStr := payloadIDOf(op.Pkt.Payload)
@@ -356,7 +365,7 @@ func checkDelivery(r *Result, prop string) []Violation {
 						if got.Topic != op.Pkt.Topic && got.Topic != "" {
 							out = append(out, viol("C03", "topic-changed", fmt.Sprintf("publish op %d: topic %q delivered as %q", oi, op.Pkt.Topic, got.Topic), live[0].Seq))
 						}
-						if c.Ver == 5 && j.PubVer == 5 {
+						if r.Ex.Conns[live[0].Conn].Ver == 5 && j.PubVer == 5 {
 							for _, pid := range []byte{refcodec.PContentType, refcodec.PResponseTopic, refcodec.PCorrelationData} {
 								a, aok := op.Pkt.Props.Get(pid)
 								b, bok := got.Props.Get(pid)
